@@ -105,6 +105,14 @@ def gen_repo(r, portable=False, with_dist=None, ignored_dirs=True, complete=Fals
                 if sub == 'news' and r.random() < 0.5:
                     mkdir('metadata/news/2020-01-01-x', 'plain')
                     mkfile('metadata/news/2020-01-01-x/2020-01-01-x.en.txt')
+        # plain sub-directories of metadata/ (no Manifest of their own), next to the ones that get one
+        for sub in ('install-qa-check.d', 'zz-plain', 'aa-plain'):
+            if r.random() < 0.35:
+                mkdir('metadata/' + sub, 'plain')
+                mkfile(f'metadata/{sub}/' + r.choice(['60check', 'README', 'x.sh']))
+                if r.random() < 0.3:
+                    mkdir(f'metadata/{sub}/deeper', 'plain')
+                    mkfile(f'metadata/{sub}/deeper/file')
         if r.random() < 0.6 or complete:
             mkdir('metadata/md5-cache', 'metadata-sub')
             have = sorted(d for d, ro in roles.items() if ro == 'category')
@@ -117,6 +125,11 @@ def gen_repo(r, portable=False, with_dist=None, ignored_dirs=True, complete=Fals
             if r.random() < 0.3:
                 mkdir(ig, 'ignored')
                 mkfile(ig + '/junk.tar.gz', b'junk')
+    if r.random() < 0.3:
+        # a flat top-level directory that is neither a category nor one of the special ones
+        mkdir('scripts', 'plain')
+        for k in range(r.randint(1, 2)):
+            mkfile('scripts/' + r.choice(['bootstrap.sh', 'README', 'tool.py']))
     if r.random() < 0.4:
         mkfile('header.txt')
     # hidden directories (skipped by every tool), also two side by side
